@@ -30,6 +30,11 @@ SameLogged(o, g) ==
   /\ (o.r = "ok" => CanonSV(o.tree) = CanonSV(g.tree))
   /\ (o.r = "err" => g.kind \in {"syntax", "conv", "config", "substsyntax"})
 
+(* the recorded error is exactly this outcome's error (kind, and line when the code reports one): used *)
+(* only to tell which of two schemas the code evidently ran on, never to   *)
+(* reject a session                                                        *)
+SameError(o, g) == o.r = "err" /\ g.r = "err" /\ o.kind = g.kind /\ (g.line = -1 \/ o.line = g.line)
+
 ImplSet(d) == UNION {{<<d.impl[i][1], d.impl[i][2][j]>> : j \in DOMAIN d.impl[i][2]} : i \in DOMAIN d.impl}
 
 DigestSame(a, b)    == a.rest = b.rest /\ ImplSet(a) = ImplSet(b)
@@ -70,7 +75,10 @@ SessLoad ==
      IN  /\ strict' = IF strict # "accepted" THEN strict ELSE c
          /\ lenient' = IF lenient # "accepted" THEN lenient ELSE l
          \* the recorded outcome is the one of the schema with the leaked implementer names, not of the schema proper
-         /\ leakused' = (leakused \/ (~SameLogged(o, SStep.out) /\ SameLogged(oleak, SStep.out)))
+         \* (also when both outcomes are rejections and the recorded kind and line are the leaked schema's)
+         /\ leakused' = (\/ leakused
+                         \/ (~SameLogged(o, SStep.out) /\ SameLogged(oleak, SStep.out))
+                         \/ (~SameError(o, SStep.out) /\ SameError(oleak, SStep.out)))
   /\ pos' = pos + 1 /\ app' = SStep.digest /\ UNCHANGED sess
 
 SessMutate ==
